@@ -265,6 +265,9 @@ type result struct {
 	secrets int
 }
 
+// secretImpl selects the secure-memory implementation behind the ledger for the executions that follow.
+var secretImpl = "memguard"
+
 var journalPath = os.Getenv("VERIF_JOURNAL")
 
 func journal(s string) {
@@ -291,7 +294,7 @@ func (e *env) freshDecrypt(part string, drr *appencryption.DataRowRecord) ([]byt
 
 // execute runs one (scenario, config, op, fault plan) case on a fresh world. It must be called inside a bubble.
 func execute(sc scenario, cfgName, op string, fs []fault) (res result) {
-	e := &env{w: world.New("memguard"), cfg: cfgOf(cfgName)}
+	e := &env{w: world.New(secretImpl), cfg: cfgOf(cfgName)}
 	defer e.w.Close()
 	// secrets whose reference was taken by the "parent SK re-resolved" step of intermediateKeyFromEKR
 	reresolved := map[string]bool{}
